@@ -6,9 +6,11 @@ import (
 
 	"github.com/superfly/litefs/verifharness/core"
 	"github.com/superfly/litefs/verifharness/repl"
+	"github.com/superfly/litefs/verifharness/t3"
 )
 
 func main() {
+	t3.MaybeChild()
 	args := core.ParseArgs()
 	rep := core.NewReport("C01", "model_checking", args)
 	rep.Rule = "control scripts (promote, demote, commit, drop, block, unblock, restart, retention sweep) of every distinct final state of Replication.tla executed on a real 3-node cluster (real stores, real h2c HTTP, goroutines free-running); a case = (script, concretisation); non-trivial = at least one position change was observed on a non-primary node"
@@ -18,5 +20,6 @@ func main() {
 		{Name: "repl-3n-2tx-2faults", Cfg: "MC_Repl_quick.cfg", Timeout: 10 * time.Minute, MaxKeep: core.Pick(args, 60, 400)},
 		{Name: "repl-liveness-2n-3tx-2faults", Cfg: "MC_Repl_live.cfg", Timeout: 10 * time.Minute, Live: true},
 	})
+	t3.Stage(rep, args, map[string]bool{"C01": true})
 	rep.Finish()
 }
